@@ -114,7 +114,7 @@ def gen_cases(ctx, corpus, quick):
         cases.append((cc.w2x_line(cc.deep_wml(n, close=False), gen=1, indent=1), "deep"))
     for depth, ind in ((127, 2), (128, 2), (129, 2), (255, 1), (256, 1), (257, 1), (2, 127), (2, 128), (3, 255), (300, 255)):
         cases.append((cc.w2x_line(cc.deep_wml(depth), gen=1, indent=ind), "indent-product"))
-    for n in (1000, 100000 if quick else 400000):
+    for n in (1000, 100000 if quick else 150000):   # building n siblings is quadratic in time (sibling-list walk): time is not part of the property
         for g, i in ((0, 0), (1, 2)):
             cases.append((cc.w2x_line(cc.wide_wml(n), gen=g, indent=i), "wide"))
     for k, m in ((300, 300), (2000, 2000) if quick else (6000, 6000)):
@@ -156,7 +156,7 @@ def run(ctx):
     la, lcr = common.run_lines(harness, [lines[i] for i in light], timeout=(900 if quick else 3000))
     for i, a in zip(light, la):
         answers[i] = a
-    ha, hcr = common.run_lines(harness, [lines[i] for i in heavy], shards=max(1, len(heavy)), timeout=120)
+    ha, hcr = common.run_lines(harness, [lines[i] for i in heavy], shards=max(1, len(heavy)), timeout=(120 if quick else 600))
     for i, a in zip(heavy, ha):
         answers[i] = a
 
